@@ -224,6 +224,20 @@ func (e *c01Env) concRound(r *kit.Rand, round int) {
 	nworkers := r.Range(4, 8)
 	c.Op("--- round %d: %d workers, stable=%v doomed=%v reserved=%v", round, nworkers, stable, c01Keys(doomed), c01Keys(reserved))
 
+	// same-pod stream: 1-3 pods leave the workers and get a scheduler/informer pair each
+	var races []*c01Race
+	contested := map[int]bool{}
+	for _, i := range r.Perm(len(m.pods))[:r.Range(1, 3)] {
+		p := m.pods[i]
+		contested[p.slot] = true
+		race := e.prepareRace(r, p, dests)
+		races = append(races, race)
+		recs = append(recs, c01PodAt{slot: p.slot, group: race.sop.g, req: race.oldReq}, c01PodAt{slot: p.slot, group: race.sop.g, req: p.req})
+		if race.iop.kind == "label" {
+			recs = append(recs, c01PodAt{slot: p.slot, group: race.iop.g2, req: p.req})
+		}
+	}
+
 	var wg sync.WaitGroup
 	guard := func(name string, f func()) {
 		wg.Add(1)
@@ -244,7 +258,7 @@ func (e *c01Env) concRound(r *kit.Rand, round int) {
 		ctls[w] = &c01PodCtl{dests: dests, track: true}
 		var mine []*c01Pod
 		for _, p := range m.pods {
-			if p.slot%nworkers == w {
+			if p.slot%nworkers == w && !contested[p.slot] {
 				mine = append(mine, p)
 			}
 		}
@@ -334,6 +348,13 @@ func (e *c01Env) concRound(r *kit.Rand, round int) {
 			kit.Yield("r")
 		}
 	})
+	gate := make(chan struct{})
+	for _, race := range races {
+		race := race
+		guard("same-pod-scheduler", func() { <-gate; race.sched(e) })
+		guard("same-pod-informer", func() { <-gate; race.informer(e) })
+	}
+	close(gate) // the barrier: both calls of every pair are released together
 	wg.Wait()
 	ilv := kit.DisableYield()
 	e.failf = saveFail
@@ -369,6 +390,20 @@ func (e *c01Env) concRound(r *kit.Rand, round int) {
 			}
 		}
 	}
+	sums := e.summaries(e.gqm)
+	for _, race := range races {
+		e.settleRace(ctx, race, sums)
+	}
+	for g := range ctx.schedCopy {
+		ctx.schedCopy[extension.RootQuotaName] = true
+		for _, a := range m.ancestors(g) {
+			ctx.schedCopy[a] = true
+		}
+	}
+	if len(ctx.schedCopy) > 0 && len(detaches) > 0 {
+		ctx.schedAll = true // the ancestors changed during the round
+	}
+	e.heal(ctx.where) // a same-pod violation with a narrow signature: go on with a fresh manager
 	sort.Strings(qkinds)
 	c.Count("rounds", 1)
 	c.Seen("interleaving", ilv)
